@@ -98,12 +98,45 @@ def sort_key(s: z3.SortRef) -> str:
     return s.name() if s.kind() != z3.Z3_ARRAY_SORT else f"Arr({sort_key(s.domain())},{sort_key(s.range())})"
 
 
+def make_datatype(name: str, fields) -> z3.DatatypeSortRef:
+    """A one-constructor datatype whose constructor/accessor names are unique in the SMT-LIB text (VCs are shipped to the solver pool
+    as text, and an overloaded `mk`/`year` would be ambiguous there); Python-side aliases `.mk` and `.<field>` are kept."""
+    d = z3.Datatype(name)
+    d.declare("mk_" + name, *[(f"{name}.{n}", srt) for n, srt in fields])
+    srt = d.create()
+    aliases = {"mk": srt.constructor(0)}
+    for i, (n, _) in enumerate(fields):
+        aliases[n] = srt.accessor(0, i)
+    DT_ALIASES[name] = aliases
+    for n, f in aliases.items():
+        if not hasattr(z3.DatatypeSortRef, n):
+            setattr(srt, n, f)          # python-side alias on this wrapper object (the registries hand out this very object)
+    return srt
+
+
+DT_ALIASES: Dict[str, Dict[str, z3.FuncDeclRef]] = {}
+
+
+class DTView:
+    """sort + attribute access to its constructor (`mk`) and accessors by field name."""
+    def __init__(self, srt) -> None:
+        object.__setattr__(self, "_srt", srt)
+
+    def __getattr__(self, n):
+        srt = object.__getattribute__(self, "_srt")
+        al = DT_ALIASES.get(srt.name(), {})
+        if n in al:
+            return al[n]
+        return getattr(srt, n)
+
+    def __eq__(self, o): return object.__getattribute__(self, "_srt") == (object.__getattribute__(o, "_srt") if isinstance(o, DTView) else o)
+    def __hash__(self): return hash(object.__getattribute__(self, "_srt"))
+
+
 def tuple_sort(t: Ty) -> z3.DatatypeSortRef:
     key = tuple(sort_key(sort_of(a)) for a in t.args)
     if key not in TUPLE_SORTS:
-        d = z3.Datatype("Tup_" + "_".join(key))
-        d.declare("mk", *[(f"e{i}", sort_of(a)) for i, a in enumerate(t.args)])
-        TUPLE_SORTS[key] = d.create()
+        TUPLE_SORTS[key] = make_datatype("Tup_" + "_".join(key), [(f"e{i}", sort_of(a)) for i, a in enumerate(t.args)])
     return TUPLE_SORTS[key]
 
 
